@@ -293,6 +293,7 @@ func scenario(a arrangement) vrt.Scenario {
 }
 
 func run(c *h.Check) {
+	runOverlap(c)
 	maxLen, bound := 2, 1
 	if c.Thorough() {
 		maxLen, bound = 3, 2
@@ -315,6 +316,9 @@ func run(c *h.Check) {
 }
 
 func replay(c *h.Check, rf *h.ReplayFile) []vrt.Violation {
+	if vs, ok := replayOverlap(rf); ok {
+		return vs
+	}
 	for _, a := range arrangements(3) {
 		if a.String() == rf.Scenario {
 			return h.ReplaySchedule(scenario(a), rf)
